@@ -45,6 +45,11 @@ fn probes(ast: &MapAst) -> Vec<String> {
     let base = v.clone();
     for n in &base {
         v.push(format!("{n}\0"));
+        v.push(format!("x/{n}"));
+        v.push(format!("{n}/x"));
+        v.push(format!(" {n}"));
+        v.push(format!("{n} "));
+        v.push(n.replace('.', "/"));
         v.push(format!("{n}a"));
         v.push(format!("{n}$"));
         let mut p = n.clone();
@@ -90,6 +95,10 @@ pub fn run(ctx: &Ctx, rep: &mut Reporter) {
         if !ast.obf_classes_distinct() {
             rep.count("files_with_duplicate_class_names", 1);
         }
+        rep.count(
+            "identity_mapped_classes_without_methods",
+            model.blocks.values().filter(|b| b.orig == b.obf && b.entries.is_empty()).count() as u64,
+        );
         let r = guarded(|| check(&text, &model, &pr, &methods, rep, case_idx));
         if let Err(p) = r {
             panic_violation(rep, case_idx, "panic", &p, mapping_detail(&text, term.name()));
